@@ -446,7 +446,7 @@ def expr_str(n, depth=0):
     """A compact, normalised rendering of an expression tree, used to compare
     two expressions *of the current tree* with each other (never with stored
     text) and to print reports."""
-    if not isinstance(n, dict):
+    if not isinstance(n, dict) or "k" not in n:
         return "?"
     n = strip(n)
     k = n["k"]
